@@ -181,6 +181,7 @@ func init() {
 		func(fr *Frame, st *State, c *ssa.CallCommon, args []Val, res ssa.Value) Val {
 			v := fr.v
 			cause := v.smt.declareFun("uf!errCause", []string{"Iface"}, "Iface")
+			v.smt.axiom(eq(app(cause, "(mk-iface 0 0)"), "(mk-iface 0 0)"))
 			fr.defVal(res, app(cause, args[0].T))
 			out := fr.vals[res]
 			v.smt.assert(eq(app(cause, out.T), out.T))
@@ -344,15 +345,6 @@ func boxedUF(name string) func(fr *Frame, st *State, c *ssa.CallCommon, args []V
 }
 
 func init() {
-	storeDoc := "storage back end: no effect on the modelled heap; returns unconstrained bytes (length <= input budget) or an error"
-	for _, iface := range []string{"github.com/tokenized/pkg/storage.Reader", "github.com/tokenized/pkg/storage.Storage", "github.com/tokenized/pkg/storage.StreamStorage"} {
-		regInvoke(iface+".Read", storeDoc, nil, func(fr *Frame, st *State, c *ssa.CallCommon, args []Val, res ssa.Value) Val {
-			out := fr.freshResult(st, c, res)
-			v := fr.v
-			v.smt.assert("(<= (s.len " + out.Tuple[0].T + ") " + v.heap(st, v.ghostKey("inputBudget", "Int")) + ")")
-			return out
-		})
-	}
 	for _, n := range []string{"github.com/tokenized/pkg/storage.Searcher.Search", "github.com/tokenized/pkg/storage.Storage.Search"} {
 		regInvoke(n, "storage back end: returns a list of stored blobs (count and sizes <= input budget) or an error", nil, func(fr *Frame, st *State, c *ssa.CallCommon, args []Val, res ssa.Value) Val {
 			out := fr.freshResult(st, c, res)
@@ -361,8 +353,7 @@ func init() {
 			return out
 		})
 	}
-	for _, n := range []string{"github.com/tokenized/pkg/storage.Storage.Write", "github.com/tokenized/pkg/storage.Storage.Remove", "github.com/tokenized/pkg/storage.Writer.Write",
-		"github.com/tokenized/pkg/storage.Remover.Remove",
+	for _, n := range []string{
 		"github.com/tokenized/pkg/storage.Storage.List", "github.com/tokenized/pkg/storage.Lister.List", "github.com/tokenized/pkg/storage.Storage.Clear"} {
 		regInvoke(n, "storage back end: no effect on the modelled heap; result unconstrained", nil, pureOpaque)
 	}
@@ -402,6 +393,7 @@ func nonNilError(fr *Frame, st *State, c *ssa.CallCommon, args []Val, res ssa.Va
 	out := fr.freshResult(st, c, res)
 	v := fr.v
 	v.smt.assert(not(eq(out.T, "(mk-iface 0 0)")))
+	v.smt.assert("(>= (i.val " + out.T + ") 0)") // a new error value is none of the package-level sentinels
 	cause := v.smt.declareFun("uf!errCause", []string{"Iface"}, "Iface")
 	v.smt.assert(eq(app(cause, out.T), out.T))
 	return out
